@@ -1,4 +1,5 @@
 """C12 — broadcast arithmetic follows NumPy semantics (integer shape logic + L0 data-flow)."""
+import re
 from vc.gen import Fn, Unit
 from contracts import core
 from contracts import C04 as c04
@@ -42,3 +43,151 @@ UNITS = [
          notes='shape classifier: compatible shapes are classified into the leaf that matches their shape case (also through the operand swap); '
                'incompatible shapes panic or yield Invalid'),
 ]
+
+# ---------------------------------------------------------------- the broadcast leaves
+OPS = [('add', '+', 'f_add', 'Add'), ('sub', '-', 'f_sub', 'Sub'), ('mul', '*', 'f_mul', 'Mul'), ('div', '/', 'f_div', 'Div')]
+
+LEAF_SPEC = r'''
+pub open spec fn umax(a: usize, b: usize) -> usize { if a >= b { a } else { b } }
+/// operand entry used at result position (i,j): index 0 along a broadcast dimension (property C12)
+pub open spec fn bc(m: Matrix, i: int, j: int) -> f64 {
+    at2(m.data.v@, m.ncols as int, if m.nrows == 1 { 0 } else { i }, if m.ncols == 1 { 0 } else { j })
+}
+pub open spec fn row_same(a: Matrix, b: Matrix, lo: int, hi: int) -> bool {
+    forall|r: int, c: int| lo <= r < hi && 0 <= c < a.ncols ==> #[trigger] at2(a.data.v@, a.ncols as int, r, c) == at2(b.data.v@, b.ncols as int, r, c)
+}
+'''
+
+
+def helper(name, stmt_doc, entry):
+    return ('// statement outlined by rule R27 (its iterator adapters are outside Verus): `%s`  -- ASSUMED contract\n'
+            '#[verifier::external_body]\n'
+            'pub fn %s(new: &mut Matrix, i: usize, src: &Matrix)\n'
+            '    requires wf(*old(new)), wf(*src), i < old(new).nrows, src.nrows >= 1, src.ncols == old(new).ncols\n'
+            '    ensures final(new).nrows == old(new).nrows, final(new).ncols == old(new).ncols, wf(*final(new)),\n'
+            '        forall|j: int| 0 <= j < old(new).ncols ==> #[trigger] at2(final(new).data.v@, old(new).ncols as int, i as int, j) == %s,\n'
+            '        forall|r: int, c: int| 0 <= r < old(new).nrows && r != i && 0 <= c < old(new).ncols ==> #[trigger] at2(final(new).data.v@, old(new).ncols as int, r, c) == at2(old(new).data.v@, old(new).ncols as int, r, c)\n'
+            '{ unimplemented!() }\n' % (stmt_doc, name, entry))
+
+
+APPLY_ROW = Fn(IM + 'apply_along_row', level='A',
+               requires=['A.apply_along_row.pre:: wf(*old(self)) && row < old(self).nrows && forall|x: f64| f.requires((x,))'],
+               ensures=['A.apply_along_row.shape:: final(self).nrows == old(self).nrows && final(self).ncols == old(self).ncols && wf(*final(self))',
+                        'A.apply_along_row.row:: forall|j: int| 0 <= j < old(self).ncols ==> f.ensures((at2(old(self).data.v@, old(self).ncols as int, row as int, j),), #[trigger] at2(final(self).data.v@, old(self).ncols as int, row as int, j))',
+                        'A.apply_along_row.frame:: forall|r: int, c: int| 0 <= r < old(self).nrows && r != row && 0 <= c < old(self).ncols ==> #[trigger] at2(final(self).data.v@, old(self).ncols as int, r, c) == at2(old(self).data.v@, old(self).ncols as int, r, c)'])
+
+
+def bfn(name, sym, f, tr):
+    E = lambda a, b: '%s(%s, %s)' % (f, a, b)
+    vl, vr = 'vstack_left_' + name, 'vstack_right_' + name
+    spec = (helper(vl, 'new[i].iter_mut().zip(&m1[0]).for_each(|(x, y)| *x = y %s *x);' % sym, E('at2(src.data.v@, src.ncols as int, 0, j)', 'at2(old(new).data.v@, old(new).ncols as int, i as int, j)'))
+            + helper(vr, 'new[i].iter_mut().zip(&m2[0]).for_each(|(x, y)| *x = *x %s y);' % sym, E('at2(old(new).data.v@, old(new).ncols as int, i as int, j)', 'at2(src.data.v@, src.ncols as int, 0, j)')))
+    NEWSHAPE = lambda m: 'new.nrows == %s.nrows && new.ncols == %s.ncols && wf(new)' % (m, m)
+    ENTRY = 'at2(new.data.v@, new.ncols as int, r, c) == ' + E('bc(*m1, r, c)', 'bc(*m2, r, c)')
+    DONE = lambda hi: 'forall|r: int, c: int| 0 <= r < %s && 0 <= c < new.ncols ==> #[trigger] %s' % (hi, ENTRY)
+    loops = {
+        1: {'invariant': ['wf(*m1) && wf(*m2) && m1.ncols == 1 && m1.nrows == m2.nrows', NEWSHAPE('m2'), 'C12.leaf.h_left.done:: ' + DONE('i'), 'C12.leaf.h_left.todo:: row_same(new, *m2, i as int, new.nrows as int)'],
+            'body_ghost': 'let ghost pre_new = new;',
+            'body_start': 'lemma_idx(i as int, 0, m1.nrows as int, m1.ncols as int);',
+            'body_end': ('assert forall|r: int, c: int| 0 <= r < i + 1 && 0 <= c < new.ncols implies #[trigger] %s by { if r == i { assert(at2(pre_new.data.v@, pre_new.ncols as int, r, c) == at2(m2.data.v@, m2.ncols as int, r, c)); } else { assert(at2(pre_new.data.v@, pre_new.ncols as int, r, c) == at2(new.data.v@, new.ncols as int, r, c)); } } '
+                         'assert forall|r: int, c: int| i + 1 <= r < new.nrows && 0 <= c < new.ncols implies #[trigger] at2(new.data.v@, new.ncols as int, r, c) == at2(m2.data.v@, m2.ncols as int, r, c) by { assert(at2(pre_new.data.v@, pre_new.ncols as int, r, c) == at2(m2.data.v@, m2.ncols as int, r, c)); }') % ENTRY},
+        2: {'iter_name': 'it', 'invariant': ['it.iter.end == m2.nrows', 'wf(*m1) && wf(*m2) && m1.nrows == 1 && m1.ncols == m2.ncols', NEWSHAPE('m2'), 'C12.leaf.v_left.done:: ' + DONE('i'), 'C12.leaf.v_left.todo:: row_same(new, *m2, i as int, new.nrows as int)'],
+            'body_ghost': 'let ghost pre_new = new;',
+            'body_end': ('assert forall|r: int, c: int| 0 <= r < i + 1 && 0 <= c < new.ncols implies #[trigger] %s by { if r == i { assert(at2(pre_new.data.v@, pre_new.ncols as int, r, c) == at2(m2.data.v@, m2.ncols as int, r, c)); } else { assert(at2(pre_new.data.v@, pre_new.ncols as int, r, c) == at2(new.data.v@, new.ncols as int, r, c)); } } '
+                         'assert forall|r: int, c: int| i + 1 <= r < new.nrows && 0 <= c < new.ncols implies #[trigger] at2(new.data.v@, new.ncols as int, r, c) == at2(m2.data.v@, m2.ncols as int, r, c) by { assert(at2(pre_new.data.v@, pre_new.ncols as int, r, c) == at2(m2.data.v@, m2.ncols as int, r, c)); }') % ENTRY},
+        3: {'invariant': ['wf(*m1) && wf(*m2) && m2.ncols == 1 && m1.nrows == m2.nrows', NEWSHAPE('m1'), 'C12.leaf.h_right.done:: ' + DONE('i'), 'C12.leaf.h_right.todo:: row_same(new, *m1, i as int, new.nrows as int)'],
+            'body_ghost': 'let ghost pre_new = new;',
+            'body_start': 'lemma_idx(i as int, 0, m2.nrows as int, m2.ncols as int);',
+            'body_end': ('assert forall|r: int, c: int| 0 <= r < i + 1 && 0 <= c < new.ncols implies #[trigger] %s by { if r == i { assert(at2(pre_new.data.v@, pre_new.ncols as int, r, c) == at2(m1.data.v@, m1.ncols as int, r, c)); } else { assert(at2(pre_new.data.v@, pre_new.ncols as int, r, c) == at2(new.data.v@, new.ncols as int, r, c)); } } '
+                         'assert forall|r: int, c: int| i + 1 <= r < new.nrows && 0 <= c < new.ncols implies #[trigger] at2(new.data.v@, new.ncols as int, r, c) == at2(m1.data.v@, m1.ncols as int, r, c) by { assert(at2(pre_new.data.v@, pre_new.ncols as int, r, c) == at2(m1.data.v@, m1.ncols as int, r, c)); }') % ENTRY},
+        4: {'iter_name': 'it', 'invariant': ['it.iter.end == m1.nrows', 'wf(*m1) && wf(*m2) && m2.nrows == 1 && m1.ncols == m2.ncols', NEWSHAPE('m1'), 'C12.leaf.v_right.done:: ' + DONE('i'), 'C12.leaf.v_right.todo:: row_same(new, *m1, i as int, new.nrows as int)'],
+            'body_ghost': 'let ghost pre_new = new;',
+            'body_end': ('assert forall|r: int, c: int| 0 <= r < i + 1 && 0 <= c < new.ncols implies #[trigger] %s by { if r == i { assert(at2(pre_new.data.v@, pre_new.ncols as int, r, c) == at2(m1.data.v@, m1.ncols as int, r, c)); } else { assert(at2(pre_new.data.v@, pre_new.ncols as int, r, c) == at2(new.data.v@, new.ncols as int, r, c)); } } '
+                         'assert forall|r: int, c: int| i + 1 <= r < new.nrows && 0 <= c < new.ncols implies #[trigger] at2(new.data.v@, new.ncols as int, r, c) == at2(m1.data.v@, m1.ncols as int, r, c) by { assert(at2(pre_new.data.v@, pre_new.ncols as int, r, c) == at2(m1.data.v@, m1.ncols as int, r, c)); }') % ENTRY},
+    }
+    for base, (a, b_) in ((5, ('m1', 'm2')), (7, ('m2', 'm1'))):
+        shp = 'wf(*m1) && wf(*m2) && %s.ncols == 1 && %s.nrows == 1 && new.nrows == %s.nrows && new.ncols == %s.ncols && wf(new)' % (a, b_, a, b_)
+        lem = 'lemma_idx(i as int, 0, %s.nrows as int, %s.ncols as int); lemma_idx(0, j as int, %s.nrows as int, %s.ncols as int);' % (a, a, b_, b_)
+        loops[base] = {'iter_name': 'it', 'invariant': ['it.iter.end == new.nrows', shp, 'C12.leaf.hv.rows:: ' + DONE('i')]}
+        loops[base + 1] = {'iter_name': 'jt', 'invariant': ['jt.iter.end == new.ncols', shp, '0 <= i < new.nrows', 'C12.leaf.hv.rows.j:: ' + DONE('i'),
+                                         'C12.leaf.hv.row:: forall|c: int| 0 <= c < j ==> #[trigger] at2(new.data.v@, new.ncols as int, i as int, c) == ' + E('bc(*m1, i as int, c)', 'bc(*m2, i as int, c)')],
+                           'body_ghost': 'let ghost pre_new = new;',
+                           'body_start': 'lemma_idx(i as int, j as int, new.nrows as int, new.ncols as int); lemma_row(i as int, new.nrows as int, new.ncols as int); ' + lem,
+                           'body_end': ('assert forall|r: int, c: int| 0 <= r < new.nrows && 0 <= c < new.ncols && !(r == i && c == j) implies #[trigger] at2(new.data.v@, new.ncols as int, r, c) == at2(pre_new.data.v@, new.ncols as int, r, c) by '
+                                        '{ lemma_idx(r, c, new.nrows as int, new.ncols as int); lemma_row(i as int, new.nrows as int, new.ncols as int); if r * new.ncols + c == i * new.ncols + j { lemma_idx_inj(r, c, i as int, j as int, new.ncols as int); } } '
+                                        'assert forall|r: int, c: int| 0 <= r < i && 0 <= c < new.ncols implies #[trigger] %s by { assert(at2(pre_new.data.v@, new.ncols as int, r, c) == at2(new.data.v@, new.ncols as int, r, c)); } '
+                                        'assert forall|c: int| 0 <= c < j + 1 implies #[trigger] at2(new.data.v@, new.ncols as int, i as int, c) == %s by { if c < j { assert(at2(pre_new.data.v@, new.ncols as int, i as int, c) == at2(new.data.v@, new.ncols as int, i as int, c)); } }') % (ENTRY, E('bc(*m1, i as int, c)', 'bc(*m2, i as int, c)'))}
+    panics = {k: 'DEAD' for k in range(1, 16)}
+    panics[16] = 'REJECT'
+    VALID = 'compat(*m1, *m2)'
+    fn = Fn(B + 'broadcast_' + name, ret='res', valid=VALID, panics=panics, requires=['C12.wf:: wf(*m1) && wf(*m2) && m1.nrows >= 1 && m1.ncols >= 1 && m2.nrows >= 1 && m2.ncols >= 1',
+                      'C12.machine:: umax(m1.nrows, m2.nrows) * umax(m1.ncols, m2.ncols) <= i32max()'],
+            ensures=['C12.valid:: ' + VALID,
+                     'C12.shape:: res.nrows == umax(m1.nrows, m2.nrows) && res.ncols == umax(m1.ncols, m2.ncols) && wf(res)',
+                     'C12.entry:: forall|r: int, c: int| 0 <= r < res.nrows && 0 <= c < res.ncols ==> #[trigger] at2(res.data.v@, res.ncols as int, r, c) == ' + E('bc(*m1, r, c)', 'bc(*m2, r, c)')],
+            rewrites=[('new[i].iter_mut().zip(&m1[0]).for_each(|(x, y)| *x = y %s *x);' % sym, '%s(&mut new, i, m1);' % vl,
+                       'R27: statement outlined into an assumed-contract helper (iterator adapters zip/for_each are outside Verus)'),
+                      ('new[i].iter_mut().zip(&m2[0]).for_each(|(x, y)| *x = *x %s y);' % sym, '%s(&mut new, i, m2);' % vr, 'R27'),
+                      (r'\b(m[12])\[0\]\[0\]\s*%s\s*(m[12])\b(?!\s*\[)' % re.escape(sym),
+                       (r'({ let sm_ = %s::%s(\1[0][0], \2); proof { assert forall|r: int, c: int| 0 <= r < sm_.nrows && 0 <= c < sm_.ncols implies #[trigger] at2(sm_.data.v@, sm_.ncols as int, r, c) == ' % (tr, name))
+                       + E('bc(*m1, r, c)', 'bc(*m2, r, c)') + ' by { lemma_idx(r, c, sm_.nrows as int, sm_.ncols as int); } } sm_ })',
+                       'R17: `scalar-entry op &Matrix` written as the trait call it desugars to (Verus ICE on the operator form), result bound for the entry-wise proof hint', 're?'),
+                      (r'\b(m[12])\s*%s\s*(m[12])\[0\]\[0\]' % re.escape(sym),
+                       (r'({ let ms_ = %s::%s(\1, \2[0][0]); proof { assert forall|r: int, c: int| 0 <= r < ms_.nrows && 0 <= c < ms_.ncols implies #[trigger] at2(ms_.data.v@, ms_.ncols as int, r, c) == ' % (tr, name))
+                       + E('bc(*m1, r, c)', 'bc(*m2, r, c)') + ' by { lemma_idx(r, c, ms_.nrows as int, ms_.ncols as int); } } ms_ })',
+                       'R17 (matrix op scalar-entry)', 're?')],
+            closures={1: {'params': 'x: f64', 'ret': 'o: f64', 'ensures': ['o == ' + E('at2(m1.data.v@, m1.ncols as int, i as int, 0)', 'x')]},
+                      2: {'params': 'x: f64', 'ret': 'o: f64', 'ensures': ['o == ' + E('x', 'at2(m2.data.v@, m2.ncols as int, i as int, 0)')]}},
+            loops=loops,
+            hints=[('matmat%s(m1, m2)' % name, 'replace',
+                    '({ let mm_ = matmat%s(m1, m2); proof { assert forall|r: int, c: int| 0 <= r < mm_.nrows && 0 <= c < mm_.ncols implies #[trigger] at2(mm_.data.v@, mm_.ncols as int, r, c) == %s by { lemma_idx(r, c, mm_.nrows as int, mm_.ncols as int); } } mm_ })'
+                    % (name, E('bc(*m1, r, c)', 'bc(*m2, r, c)')))])
+    return fn, spec
+
+
+BFNS = {}
+HELPERS = ''
+for name, sym, f, tr in OPS:
+    fn, sp = bfn(name, sym, f, tr)
+    BFNS[name] = fn
+    HELPERS += sp
+
+_mat_scalar = [x for x in c04.MATRIX_IMPLS if ('<&Matrix> for f64}' in x.path or '<f64> for &Matrix}' in x.path)]
+for name, sym, f, tr in OPS:
+    UNITS.append(Unit('C12_leaves_' + name, 'C12', [BFNS[name]], use=_core_all + [classify, APPLY_ROW, c04.MATMAT['matmat' + name]] + _mat_scalar,
+                      types=TYPES, type_spec=core.TYPE_SPEC, spec=SPEC + LEAF_SPEC + HELPERS, preludes=PRE, broadcast=BC, rlimit=200,
+                      notes='broadcast_%s: result shape = element-wise maximum, entry (i,j) = left[i|0][j|0] %s right[i|0][j|0] with operand order kept, incompatible shapes rejected; '
+                            'the two V-stack leaves rest on assumed contracts of their zip/for_each statements, the H-stack leaves on the assumed contract of apply_along_row' % (name, sym)))
+
+# ---------------------------------------------------------------- the 48 broadcasting operator impls (Matrix∘Matrix, Matrix∘Vector, Vector∘Matrix)
+IMPL_SPEC = r'''
+/// the 1 x n Matrix a Vector operand becomes (`Vector::to_matrix`, contract in C15_core)
+pub open spec fn as_row(v: Vector) -> Matrix { Matrix { data: v, nrows: 1, ncols: v.v@.len() as usize } }
+pub open spec fn bc_pre(a: Matrix, b: Matrix) -> bool {
+    wf(a) && wf(b) && a.nrows >= 1 && a.ncols >= 1 && b.nrows >= 1 && b.ncols >= 1 && umax(a.nrows, b.nrows) * umax(a.ncols, b.ncols) <= i32max()
+}
+'''
+OP_IMPLS = {name: [] for name, _, _, _ in OPS}
+TOOWNED = ('.to_owned().to_matrix()', '.clone().to_matrix()',
+           'R28: `to_owned()` on `&Vector` is the blanket `impl<T: Clone> ToOwned for T`, i.e. `clone()` (std; Verus has no spec for ToOwned)')
+for name, sym, f, tr in OPS:
+    for kind, pairs in (('mm', [('Matrix', 'Matrix'), ('Matrix', '&Matrix'), ('&Matrix', 'Matrix'), ('&Matrix', '&Matrix')]),
+                        ('mv', [('Matrix', 'Vector'), ('Matrix', '&Vector'), ('&Matrix', 'Vector'), ('&Matrix', '&Vector')]),
+                        ('vm', [('Vector', 'Matrix'), ('Vector', '&Matrix'), ('&Vector', 'Matrix'), ('&Vector', '&Matrix')])):
+        for self_ty, rhs_ty in pairs:
+            hdr = 'impl %s<%s> for %s' % (tr, rhs_ty, self_ty)
+            tag = 'C12.impl.%s<%s>for%s' % (tr, rhs_ty, self_ty)
+            s_ = '(*self)' if self_ty.startswith('&') else 'self'
+            o_ = '(*other)' if rhs_ty.startswith('&') else 'other'
+            a = 'as_row(%s)' % s_ if 'Vector' in self_ty else s_
+            b = 'as_row(%s)' % o_ if 'Vector' in rhs_ty else o_
+            rw = [TOOWNED] if (kind == 'mv' and rhs_ty == '&Vector') or (kind == 'vm' and self_ty == '&Vector') else []
+            OP_IMPLS[name].append(Fn(MAT + '{%s}::%s' % (hdr, name), ret='r', valid='compat(%s, %s)' % (a, b), rewrites=rw,
+                                     requires=[tag + '.pre:: bc_pre(%s, %s)' % (a, b)],
+                                     ensures=[tag + '.valid:: compat(%s, %s)' % (a, b),
+                                              tag + '.shape:: r.nrows == umax(%s.nrows, %s.nrows) && r.ncols == umax(%s.ncols, %s.ncols) && wf(r)' % (a, b, a, b),
+                                              tag + '.entry:: forall|i: int, j: int| 0 <= i < r.nrows && 0 <= j < r.ncols ==> #[trigger] at2(r.data.v@, r.ncols as int, i, j) == %s(bc(%s, i, j), bc(%s, i, j))' % (f, a, b)]))
+    UNITS.append(Unit('C12_ops_' + name, 'C12', OP_IMPLS[name], use=_core_all + [BFNS[name]], types=TYPES, type_spec=core.TYPE_SPEC,
+                      spec=SPEC + LEAF_SPEC + IMPL_SPEC, preludes=PRE, broadcast=BC,
+                      notes='the 12 `%s` operator impls that broadcast (Matrix%sMatrix, Matrix%sVector, Vector%sMatrix; owned and borrowed): each is its '
+                            'broadcast_%s leaf on the operands in the written order, a Vector operand entering as a 1 x n row' % (sym, sym, sym, sym, name)))
